@@ -139,8 +139,8 @@ def drive(prop, tier, seed, only, scratch, t_start):
             conds.append(c)
         if hasattr(mod, 'selftests'):
             selftests.extend((modname, fn, args) for fn, args in mod.selftests(prop))
-        if hasattr(mod, 'solver_obligations'):
-            extra.append(mod)
+        if hasattr(mod, 'solver_obligations') and mod.solver_obligations.__module__ == modname:
+            extra.append(mod)       # (star-imported obligations of another harness module are not run twice)
     if only:
         conds = [c for c in conds if only in c['name']]
 
